@@ -3,6 +3,7 @@ package main
 import (
 	"fmt"
 	"go/types"
+	"os"
 	"runtime/debug"
 	"sort"
 	"strings"
@@ -90,6 +91,9 @@ func (en *Engine) RunUnit(key string) (res *UnitResult) {
 			}
 			msg := fmt.Sprint(r)
 			st := string(debug.Stack())
+			if os.Getenv("VERIF_DEBUG") != "" {
+				fmt.Fprintln(os.Stderr, "unit", key, "panic:", r, "\n", st)
+			}
 			// keep the innermost engine frame for diagnosis
 			for _, l := range strings.Split(st, "\n") {
 				if strings.Contains(l, "/engine/") && !strings.Contains(l, "unit.go") {
@@ -117,7 +121,7 @@ func (en *Engine) RunUnit(key string) (res *UnitResult) {
 }
 
 func (en *Engine) newExec(fn *ssa.Function, fc *FuncContract) *Exec {
-	e := &Exec{fn: fn, sorts: NewSorts(), cs: en.CS, inline: map[string]bool{}, lenient: fc.Lenient, prog: en.Prog}
+	e := &Exec{fn: fn, sorts: NewSorts(), cs: en.CS, inline: map[string]bool{}, lenient: fc.Lenient, prog: en.Prog, applied: map[string]int{}}
 	e.contract = fc
 	for _, n := range fc.Inline {
 		e.inline[n] = true
